@@ -147,6 +147,17 @@ func BlockedOnMutex(id string, inFunc string) bool {
 	return false
 }
 
+// WaitingIn reports whether goroutine id is parked by the runtime on a synchronisation primitive (mutex,
+// wait group, condition variable) somewhere below a frame whose function name contains inFunc.
+func WaitingIn(id string, inFunc string) bool {
+	st, stack := WaitState(id)
+	switch st {
+	case "semacquire", "sync.Mutex.Lock", "sync.WaitGroup.Wait", "sync.Cond.Wait", "sync.RWMutex.RLock", "sync.RWMutex.Lock":
+		return strings.Contains(stack, inFunc)
+	}
+	return false
+}
+
 func samePkg(a, b string) bool {
 	pkg := func(s string) string {
 		if i := strings.LastIndex(s, "/"); i >= 0 {
